@@ -1250,14 +1250,17 @@ struct Bounds {
 }
 
 fn bounds(tier: Tier) -> Vec<Bounds> {
+    // quick:    local stamps <= 3; R2 = depth <= 3; R3 = depth <= 2.
+    // thorough: local stamps <= 4 for the family the command glue produces (<= 3 elsewhere);
+    //           R2 = depth <= 4; R3 = depth <= 2, plus depth 3 with all stamp times <= 3.
     FAMS.iter()
         .map(|f| Bounds {
             fam: *f,
-            t_max: 3,
+            t_max: if *f == Fam::LwwHash { tier.pick(3, 4) } else { 3 },
             depth_pairs: tier.pick(3, 4),
             depth_triples: 2,
             depth_triples_ext: tier.pick(2, 3),
-            t_ext: 2,
+            t_ext: 3,
         })
         .collect()
 }
